@@ -52,7 +52,9 @@ CHECKS = {
             "Exploration: for generated 1-d chains the integration cells the code uses are captured and compared "
             "with reference cells built from the axis alone (tiling, shared end points, truncation bounds, central "
             "cell), every rate is compared with an independent quadrature of the density, rates are >= 0 and sum "
-            "to the reported intensity, and three routes to a state's rate agree. For copula chains (d=2,3; "
+            "to the reported intensity, and three routes to a state's rate agree; half of the cases first build up to "
+            "two chains on narrower grids with the same model object, and the caller's model must come out unchanged. "
+            "For copula chains (d=2,3; "
             "Clayton incl. eta in {0,1}, independent, dependent; INVERSION and adapted tree) every state's rate, "
             "the intensity and the 3^d-1 bucket masses are compared with a reference rectangle mass re-implemented "
             "from Kallsen-Tankov over quadrature tail integrals; Clayton rectangles also against dblquad of the "
@@ -84,7 +86,8 @@ CHECKS = {
             "truncated measure (quadrature); the added diffusion variance must be the central-cell second moment "
             "iff infinite variation and exactly 0 otherwise; the jump variance must lie within the per-cell "
             "oscillation bound. For copula chains (d=2,3) every margin's mean is checked the same way with the "
-            "independently computed box-truncation leak of the other coordinates added to the tolerance.",
+            "independently computed box-truncation leak of the other coordinates added to the tolerance; a third of the "
+            "2-d cases mix a finite- with an infinite-variation margin.",
             "Rates are those verified by C01; a_decl is read from the model after set_representation (the "
             "conversions on the untruncated measure are C10's subject)."),
     "C03": ("3/C03",
@@ -113,7 +116,8 @@ CHECKS = {
             "(real and imaginary part separately) with i u a - sigma^2 u^2/2 + quadrature of (e^{iux}-1-iux c(x)) "
             "nu(x) for the representation the model declares (five CGMY branches incl. y<0, 0, 1); every stated "
             "cumulant with the n-th derivative of the exponent (256-node Cauchy integral); sequences of up to 6 "
-            "representation changes against the definition of each drift (quadrature) and for reversibility; for "
+            "representation changes against the definition of each drift (quadrature), for reversibility and with the "
+            "exponent / log-characteristic function of the same object unchanged after every change; for "
             "exponential models the forward is recovered from the characteristic function at -i, from the "
             "direct-simulation drift (HEM, Merton, BS) and from the Markov-chain drift under the exact truncated "
             "jump law (up to the independently computed truncation leak).",
@@ -147,6 +151,7 @@ CHECKS = {
             "reference for mean, unbiased standard error and regression-adjusted samples",
             "Exploration: for 1..200 generated paths (1-3 assets, identity/log representation, constant payoffs "
             "included), scalar and vector strikes (payoff dimension 1..4), notionals, discount factors, 0..3 controls "
+            "(scalar, or with one strike and one price per payoff component) "
             "and spot statistics on/off, the engine must consume each path exactly once, store the samples in "
             "order, report price = df x mean(notional x payoff) and error = unbiased sample std / sqrt(n) per "
             "component, and with controls the mean of Y - b*(X - price_X) with b* the sample regression coefficient "
@@ -166,7 +171,9 @@ CHECKS = {
             "across paths, passes and levels), pre-drawn rows must all be consumed, coarse(l) must differ from "
             "fine(l-1), and no seed value may be applied again once samples were produced under it. Worker "
             "processes: 2..4 workers x path counts, stored samples must be pairwise distinct (currently a listed "
-            "known finding: chunks share the pre-drawn buffers).",
+            "known finding: chunks share the pre-drawn buffers). Adaptive engine (Engine.price, several passes, levels "
+            "deep-copied and added) on the real coupling: seeded repeat incl. every coupling decision, and every "
+            "variate compared with the right-jump probability (recorded by a probe at the comparison) occurs once.",
             "The OS scheduling of workers is not controlled; the clock and every seed call are. Equal values = "
             "shared variates holds because payoffs are continuous in the variates (sigma >= 0.05)."),
     "C15": ("3/C15",
@@ -178,7 +185,8 @@ CHECKS = {
             "1..12 observation dates and scripted variates; times must increase strictly from 0 to the maturity, "
             "value(0)=0, the jump path must be the running sum of all scripted jumps up to each time (fine and "
             "coarse), the diffusion path the cumulative sum of coefficient*sqrt(dt)*w_i with each scripted variate "
-            "used once, inserted points must repeat the preceding value and keep every step under the cap; the "
+            "used once, inserted points must repeat the preceding value and keep every step - up to the maturity, jumps "
+            "or not - under the cap; the "
             "three finer-grid builders are also checked directly on drawn arrays.",
             "Scripts replace the random collaborators on the instances (numpy.random.normal on the module for the "
             "duration of the call); small fixed grids; the coupling kernel itself is C03's subject."),
@@ -251,7 +259,9 @@ CHECKS = {
             "scalar = vector strikes, implied density >= 0 and of mass 1 (both up to the truncation error measured "
             "by the sweep), price() dispatch; COS = closed form on BS (1e-7), FFT = COS (1e-3, strikes >= 0.25 spot, "
             "log-return stddev <= 0.8, integrand singularity >= 1 from the real axis), VG = its CGMY parametrisation "
-            "(1e-7). On smooth models (BS, HEM, Merton) a failed sweep is itself a violation. One COS / FFT pricer "
+            "(1e-7). On smooth models (BS, HEM, Merton) a failed sweep is itself a violation. CFBlackScholes on both "
+            "sides of the 1e-8 threshold of its degenerate branch (volatility, maturity): parity with its forward, "
+            "bounds, time-value bound, digital in [0,df]. One COS / FFT pricer "
             "object used for a generated sequence of calls at several maturities equals fresh pricers bitwise.",
             "'Provably below tolerance' is replaced by a measured sweep (n=10000,L=10) vs (n=40000,L=20): cases "
             "outside are counted as rejected; FFT comparisons are restricted to the domain where its fixed step and "
@@ -267,7 +277,8 @@ CHECKS = {
             "spread, E[CDS payoff] under tau~Exp(theta) by quadrature of the payoff equals default leg - s x fixed leg "
             "and implied_cds_spread inverts it; on symmetric and asymmetric CTMCCredit grids the sum of the rates of "
             "the chain states with a coordinate below its threshold equals the closed form up to the independently "
-            "computed mass outside the grid's box.",
+            "computed mass outside the grid's box; after an in-place truncation of the model the same pricer object must "
+            "agree with a fresh one and with the quadrature mass.",
             "Chain rates are those verified by C01; copula chains restricted to finite-variation margins."),
     "C20": ("3/C20",
             "Hypothesis-generated calibration problems with a solution by construction and operation lists over "
